@@ -971,7 +971,20 @@ fn format_subexpression(
         }
         ast::Expression::SizeOf(expr) => {
             output.push_str("sizeof(");
+            // The argument is parsed like a template argument - so a > >> >= or , outside of parenthesis would end it
+            let inner_requires_paren = match &**expr {
+                ast::ExpressionOrType::Expression(inner) | ast::ExpressionOrType::Either(inner, _) => {
+                    get_expression_precedence(inner)? >= 7
+                }
+                ast::ExpressionOrType::Type(_) => false,
+            };
+            if inner_requires_paren {
+                output.push('(');
+            }
             format_expression_or_type(expr, output, context)?;
+            if inner_requires_paren {
+                output.push(')');
+            }
             output.push(')');
         }
         ast::Expression::Member(expr, name) => {
